@@ -314,7 +314,7 @@ func nativeReplay(path string, doc *replayDoc, bi *buildInfo) string {
 	if strings.HasPrefix(out, "VP-PASS") || strings.HasPrefix(out, "VP-ASSUME") {
 		// the library's own random draws are not injectable: a counterexample may need several native runs
 		if again := nativeReplayRounds(path, doc, bi, 60); !strings.HasPrefix(again, "VP-PASS") && !strings.HasPrefix(again, "VP-ASSUME") {
-			return again + " (within 60 native runs; depends on the library's random draws)"
+			return again + " (within 60 native runs or 45 s of them; depends on the library's random draws)"
 		}
 	}
 	return out
@@ -330,6 +330,9 @@ func nativeReplayRounds(path string, doc *replayDoc, bi *buildInfo, rounds int) 
 	cmd := exec.Command("go", append(args, doc.Pkg)...)
 	cmd.Dir = repoDir
 	cmd.Env = append(goEnv(), "VP_REPLAY="+path, fmt.Sprintf("VP_ROUNDS=%d", rounds))
+	if rounds > 1 {
+		cmd.Env = append(cmd.Env, "VP_SECONDS=45") // cheap harnesses get many more runs (collisions of small random ranges)
+	}
 	out, err := cmd.CombinedOutput()
 	if race && (strings.Contains(string(out), "WARNING: DATA RACE") || strings.Contains(string(out), "race detected during execution")) {
 		return "VP-RACE-DETECTED by go test -race"
